@@ -1226,6 +1226,8 @@ class Program:
             # lossless integer conversion (From is only implemented for widening conversions)
             to, frm = (generics[0], generics[1]) if name.endswith("from") else (generics[1], generics[0])
             return T.cast("IntToInt", args[0], frm, to)
+        if name == "iter::IntoIterator::into_iter" and nq == "<I as iter::IntoIterator>::into_iter":
+            return args[0]          # blanket impl for iterators: identity
         if name == "ops::Deref::deref" and nq.startswith("<&"):
             return self._val(an, st, args[0])
         return None
